@@ -17,7 +17,7 @@ if [ "${VERIF_MUTANT_SUITE:-0}" = 1 ]; then
 fi
 VERIF_REPO="$scratch/repo" VERIF_BIN="$scratch/bin" VERIF_OUT="$scratch/out" "$VERIF_HOME/scripts/check.sh" "$prop" "$tier" > "$scratch/check.log" 2>&1
 rc=$?
-grep -E "^(verif:|violation:|VIOLATION|KNOWN|OK)" "$scratch/check.log" | cut -c1-300 | head -12
+grep -E "^(verif:|violation:|VIOLATION|KNOWN|OK|worker|a worker|HARNESS|WATCHDOG)" "$scratch/check.log" | cut -c1-300 | head -12
 if [ $rc = 1 ]; then echo "CAUGHT $(basename "$patch") by $prop"; exit 0; fi
 if [ $rc = 0 ]; then echo "MISSED $(basename "$patch") by $prop"; exit 1; fi
 echo "INFRA rc=$rc"; tail -20 "$scratch/check.log"; exit 2
